@@ -407,6 +407,28 @@ func clChecksumOperands(c *Ctx) {
 		c.Check(r.kind != "?", dec, r.in, "reader CRC operand is a prefix slice or the item bytes", "")
 	}
 	c.Check(pay == 1, dec, nil, "reader checksums the payload it read", "")
+	// the checksum handed out together with a decoded item is crc(prefix) ^ crc(payload), the writer's formula
+	dfi := p.Info(dec)
+	for _, ret := range dfi.Returns() {
+		if len(ret.Results) != 3 || isNilConst(strip(dfi.RetVal(ret, 0))) {
+			continue
+		}
+		x, isXor := strip(dfi.RetVal(ret, 1)).(*ssa.BinOp)
+		good := isXor && x.Op == token.XOR
+		if good {
+			side := func(v ssa.Value, kind string) bool {
+				for _, r := range dcr {
+					if r.kind == kind && feeds(r.in, v) {
+						return true
+					}
+				}
+				return false
+			}
+			good = (side(x.X, "prefix") && side(x.Y, "payload")) || (side(x.Y, "prefix") && side(x.X, "payload"))
+		}
+		c.Check(good, dec, ret, "reader returns crc(prefix) ^ crc(payload) with every decoded item",
+			"on some path the reader combines the prefix and payload checksums differently from the writer (crc(prefix) ^ crc(payload)): an intact backup containing such an item fails verification, or the per-file checksum no longer covers it")
+	}
 	// per-file folding with XOR in WriteItem / ReadItem, reader excludes the terminator
 	wi := p.Func("nitro", "rawFileWriter", "WriteItem")
 	ri := p.Func("nitro", "rawFileReader", "ReadItem")
